@@ -90,3 +90,27 @@ Definition check_nc (c : nat * str * list str * option (str * list str)) : bool 
   | Some n, Some (n', g') => str_eqb n n' && path_eqb (nc_groups n) g'
   | _, _ => false
   end.
+
+(* ---- group attributes: (global attributes, attributes of each non-root group, groups of the
+   data variable, its own attributes, a name, the observed property of the field) *)
+Definition check_gattr (c : attrs * list (list str * attrs) * list str * attrs * str * option str) : bool :=
+  let '(glob, fa, groups, va, k, obs) := c in
+  ostr_eqb (assoc_str k (field_props glob fa groups va)) obs.
+
+(* the names recorded by nc_set_group_attributes, as a set *)
+Definition check_gattr_recorded (c : list (list str * attrs) * list str * attrs * list str) : bool :=
+  let '(fa, groups, va, obs) := c in
+  let m := map fst (recorded_group_attrs fa groups va) in
+  forallb (fun k => mem_str k obs) m && forallb (fun k => mem_str k m) obs.
+
+(* ---- the dimensions of one variable in the flattened dataset: (tree, reversed group path of the
+   variable, basenames of its dimensions, observed flattened dimension names, through h5netcdf?) *)
+Definition check_vardims (c : group * list str * list str * list str * bool) : bool :=
+  let '(root, rp, ds, obs, h5) := c in
+  let homes := if h5 then h5_get_dims root rp ds else map (nc_lookup_dim root rp) ds in
+  list_eqb (option_eqb str_eqb)
+    (map (fun hd => match fst hd with
+                    | Some q => assoc_str (pathname q (snd hd)) (dim_map_u hash0 root)
+                    | None => None
+                    end) (combine homes ds))
+    (map (@Some str) obs).
